@@ -705,6 +705,12 @@ func (w *World) extraObligations(run *checkRun) {
 		}
 		run.notes = append(run.notes, fmt.Sprintf("dependence obligations: %d functions reachable from the decoding entry points; option locations: decoder.debug, decoder.opts.*, decoder.unknownFields, decoder.unknownMessages", len(fns)))
 		run.trusted["the user-supplied Logger does not touch the library's state; reflect/binary/fmt callees do not read the option locations"] = true
+	case "C05":
+		fr := &FuncResult{Fn: "internal/types tables"}
+		run.results = append(run.results, fr)
+		for _, gc := range w.invalidTableChecks() {
+			run.items = append(run.items, workItem{fr, w.groundObligation(run.prop, gc)})
+		}
 	case "C15":
 		fr := &FuncResult{Fn: "profile tables"}
 		run.results = append(run.results, fr)
